@@ -291,19 +291,112 @@ class Report:
         return 1 if self.violations else 0
 
 
-def validate_traces(rep, area, module, cfg, trace_path, workdir, cases_by_run=None, timeout=900, xmx="4g"):
-    """Runs the Ref monitor over an NDJSON trace file (many runs separated by Reset events).
-    Every REJECT is handed to rep.reject with the run's case as replay object. Returns #runs."""
-    res = run_tlc(area, module, cfg, workdir, workers=1, timeout=timeout, env={"TRACE": trace_path}, deque=True, xmx=xmx)
-    if res.timed_out:
-        raise ToolError("trace validation timed out")
-    done = [i for i in res.infos if isinstance(i, dict) and i.get("k") == "done"]
-    if res.rc != 0 or res.errors or not done:
-        raise ToolError("trace validation failed to run to the end: rc=%s\n%s" % (res.rc, res.raw_tail))
-    n_events = done[0].get("events", 0)
-    for r in res.rejects:
+def _split_trace(trace_path, shards, workdir):
+    """Splits an NDJSON trace at Reset boundaries into `shards` files of similar size."""
+    size = os.path.getsize(trace_path)
+    target = size // shards + 1
+    paths, cur, written = [], None, 0
+    with open(trace_path) as f:
+        for line in f:
+            if cur is None or (written >= target and line.startswith('{"ev":"Reset"')):
+                if cur:
+                    cur.close()
+                pth = os.path.join(workdir, "shard-%d-%s" % (len(paths), os.path.basename(trace_path)))
+                paths.append(pth)
+                cur = open(pth, "w")
+                written = 0
+            cur.write(line)
+            written += len(line)
+    if cur:
+        cur.close()
+    return paths
+
+
+def validate_traces(rep, area, module, cfg, trace_path, workdir, cases_by_run=None, timeout=1500, xmx="3g", shards=None):
+    """Runs the Ref monitor (TLC, trace mode) over an NDJSON trace file holding many runs separated
+    by Reset events. Every REJECT is handed to rep.reject with the run's case as replay object.
+    Large traces are split at run boundaries and validated by several JVMs in parallel."""
+    import concurrent.futures as cf
+    size = os.path.getsize(trace_path)
+    if shards is None:
+        shards = max(1, min(8, size // 4_000_000))
+    paths = _split_trace(trace_path, shards, workdir) if shards > 1 else [trace_path]
+
+    def one(pth):
+        return run_tlc(area, module, cfg, workdir, workers=1, timeout=timeout, env={"TRACE": pth}, deque=True, xmx=xmx)
+
+    with cf.ThreadPoolExecutor(max_workers=len(paths)) as ex:
+        results = list(ex.map(one, paths))
+    n_events = 0
+    rejects = []
+    for res in results:
+        if res.timed_out:
+            raise ToolError("trace validation timed out")
+        done = [i for i in res.infos if isinstance(i, dict) and i.get("k") == "done"]
+        if res.rc != 0 or res.errors or not done:
+            raise ToolError("trace validation failed to run to the end: rc=%s\n%s" % (res.rc, res.raw_tail))
+        n_events += done[0].get("events", 0)
+        rejects += res.rejects
+    for r in rejects:
         run = r.get("run")
         case = cases_by_run.get(run) if cases_by_run else None
         rep.reject(r.get("sig", "?"), "clause=%s at event %s: %s" % (r.get("clause"), r.get("l"), json.dumps(r.get("ev"))[:300]),
                    {"area": area, "run": run, "case": case, "reject": r})
-    return res, n_events
+    if shards > 1:
+        for pth in paths:
+            try:
+                os.remove(pth)
+            except OSError:
+                pass
+    return results[0], n_events
+
+
+class Area:
+    """Common replay-and-validate plumbing of one specification area."""
+
+    def __init__(self, rep, area, trace_module, trace_cfg="Trace.cfg"):
+        self.rep, self.area, self.trace_module, self.trace_cfg = rep, area, trace_module, trace_cfg
+        self.bin = None
+        self.n = 0
+
+    def build(self):
+        if not self.bin:
+            self.bin = build_harness(self.rep.workdir)
+        return self.bin
+
+    def run_cases(self, cases, tag, extra_args=(), timeout=1500, count=True, rep=None):
+        """cases -> conform replay -> trace -> TLC validation against the Ref monitor."""
+        rep = rep or self.rep
+        wd = self.rep.workdir
+        self.n += 1
+        cpath = os.path.join(wd, "cases-%s-%d.ndjson" % (tag, self.n))
+        tpath = os.path.join(wd, "trace-%s-%d.ndjson" % (tag, self.n))
+        write_ndjson(cpath, cases)
+        run_conform(self.build(), [self.area, "replay", cpath, tpath] + list(extra_args), timeout=timeout)
+        by_run = {i + 1: c for i, c in enumerate(cases)}
+        _, n_events = validate_traces(rep, self.area, self.trace_module, self.trace_cfg, tpath, wd, by_run, timeout=timeout)
+        if count:
+            rep.cov["traces_validated_against_impl"] += len(cases)
+            rep.cov["evaluations"] += n_events
+        return tpath
+
+    def selftest(self, tpath, corrupt, what, limit=20000):
+        """Binding self-test (DESIGN.md 2.6): a recorded trace with one corrupted observation must be rejected."""
+        ev = []
+        with open(tpath) as f:
+            for line in f:
+                ev.append(json.loads(line))
+                if len(ev) >= limit:
+                    break
+        # cut at the last complete run
+        bad = corrupt(ev)
+        if bad is None:
+            raise ToolError("binding self-test: nothing to corrupt (%s)" % what)
+        bpath = os.path.join(self.rep.workdir, "trace-corrupt.ndjson")
+        write_ndjson(bpath, bad)
+        probe = Report(self.rep.pid, self.rep.tier, self.rep.seed, self.rep.workdir)
+        probe.known = []
+        validate_traces(probe, self.area, self.trace_module, self.trace_cfg, bpath, self.rep.workdir, None, shards=1)
+        if not probe.violations:
+            raise ToolError("binding self-test failed: corrupted trace (%s) was accepted" % what)
+        self.rep.cov["binding_selftest"].append({"corrupted": what, "rejected": True, "sig": probe.violations[0][0]})
